@@ -141,6 +141,22 @@ def history_failure_case(inp):
             "hist": {"op": "history_failed", "layout": "history"}}
 
 
+def run_op(op, rng, inp):
+    """one operation case; when the harness cannot even interpret what the library returned (an exception while reading the
+    result back or building the case) that is a verdict about the library, not a crash of the check: the stream is run on
+    the unchanged tree with many seeds without ever getting here"""
+    import traceback
+    try:
+        return op(rng, inp)
+    except Exception:  # noqa: BLE001
+        tb = traceback.format_exc()
+        return {"stream": "uninterpretable", "op": getattr(op, "__name__", "op"), "term": "[true; false; true; true]",
+                "input": {"layout": inp.get("recipe"), "schema": inp.get("schema"), "rows": repr(inp.get("rows"))[:600]},
+                "impl_repr": "the result of the operation could not be interpreted: " + tb[-600:],
+                "meta": {"impl_raised": True}, "sig": ["uninterpretable", getattr(op, "__name__", "op")], "trivial": False,
+                "hist": {"op": "uninterpretable", "layout": str(inp.get("recipe"))}}
+
+
 def rows_repr(rows):
     return [None if r is None else {k: (None if v is None else [repr(x) for x in v]) for k, v in r.items()} for r in rows]
 
@@ -243,7 +259,7 @@ def plain_rows(inp):
     names = [n for n, _ in inp["schema"]]
     out = []
     for r in inp["rows"]:
-        out.append(None if r is None else [list(r[n]) for n in names])
+        out.append(None if r is None else [list(r[n] or []) for n in names])
     return out
 
 
